@@ -594,9 +594,13 @@ def r34(ctx: Ctx) -> RuleReport:
         if isinstance(v, ast.Constant) and isinstance(v.value, str):
             none_guard = (f'{p} is None', True) in facts or (f'{p} is not None', False) in facts
             good = v.value == '""' and none_guard
+            # a constant result under a test that is also true for other values (truthiness, == '', equality with 0 ...)
+            wider = [f for f, pol in facts if (f == p and not pol) or (f == f'not {p}' and pol)]
             rep.oblige('None is quoted as the empty string constant ""', good,
-                       '' if good else f'returns {v.value!r} ' + ('' if none_guard else 'outside the `is None` branch'),
-                       q.loc(r), key=key, positive=(v.value != '""'))
+                       '' if good else f'returns {v.value!r} ' + (f'whenever `{p}` is falsy: the numbers 0 and 0.0 (and False) are quoted as {v.value!r} '
+                                                                  f'instead of their string form' if wider else
+                                                                  ('' if none_guard else 'outside the `is None` branch')),
+                       q.loc(r), key=key, positive=(v.value != '""' or bool(wider)))
             continue
         d = dotted(v.func) if isinstance(v, ast.Call) else None
         if d == 'json.dumps':
